@@ -354,4 +354,39 @@ theorem ctrIdMpi_inverse (w : Nat) (hw : 0 < w) (L : List Nat) (t f l : Nat)
     rw [getElem?_flatten_offset _ (t / w) f _ hS (by omega)]
     rw [List.getElem?_take_of_lt hf, List.getElem?_drop, List.getElem?_range (by omega)]
 
+/-! ### flat global ids -/
+
+theorem locate_spec (L : List Nat) (g : Nat) (hg : g < L.sum) :
+    ∃ t f l, locate L g = some (t, f) ∧ L[t]? = some l ∧ f < l ∧ (L.take t).sum + f = g := by
+  induction L generalizing g with
+  | nil => simp at hg
+  | cons l0 ls ih =>
+    unfold locate
+    by_cases h : g < l0
+    · exact ⟨0, g, l0, by simp [h], by simp, h, by simp⟩
+    · simp only [h, if_false]
+      have hg' : g - l0 < ls.sum := by simp only [List.sum_cons] at hg; omega
+      obtain ⟨t, f, l, h1, h2, h3, h4⟩ := ih (g - l0) hg'
+      refine ⟨t + 1, f, l, by simp [h1], by simpa using h2, h3, ?_⟩
+      simp only [List.take_succ_cons, List.sum_cons]; omega
+
+theorem locate_none (L : List Nat) (g : Nat) (hg : L.sum ≤ g) : locate L g = none := by
+  induction L generalizing g with
+  | nil => rfl
+  | cons l0 ls ih =>
+    simp only [List.sum_cons] at hg
+    unfold locate
+    have h : ¬ g < l0 := by omega
+    simp only [h, if_false, ih (g - l0) (by omega), Option.map_none]
+
+/-- a flat global frame id is sent to a `(rank, local index)` that converts back to it -/
+theorem ctrIdMpi_flat_inverse (w : Nat) (hw : 0 < w) (L : List Nat) (g : Nat) (hg : g < L.sum) :
+    ∃ p, ctrIdsMpiFlat w L [g] = .ok [p] ∧ p.1 < w ∧ convertLocal w L p = .ok g := by
+  obtain ⟨t, f, l, h1, h2, h3, h4⟩ := locate_spec L g hg
+  obtain ⟨p, hp, hpw, hc⟩ := ctrIdMpi_inverse w hw L t f l h2 h3
+  refine ⟨p, ?_, hpw, by rw [hc, h4]⟩
+  unfold ctrIdsMpiFlat
+  simp only [List.mapM_cons, List.mapM_nil, h1, hp]
+  rfl
+
 end Ens.Mpi
